@@ -254,6 +254,10 @@ pub fn run(cfg: &Cfg, rep: &mut Report) {
     }
     let depth = 1 + r.below(2);
     let mut ops: Vec<Op> = (0..depth).map(|_| random_single_op(&mut r, 12)).collect();
+    if i % 10 == 0 {
+      // pairs share their hash whenever their first components agree (see value.rs)
+      ops = vec![Op::Pairwise, if r.chance(1, 2) { Op::Distinct } else { Op::DistinctUntilChanged }];
+    }
     for (pos, op) in ops.iter_mut().enumerate() {
       if let Op::Tap(id) = op {
         *id = 50 + pos as u32;
@@ -264,6 +268,26 @@ pub fn run(cfg: &Cfg, rep: &mut Report) {
     let chain = Chain::new(src, ops);
     rep.count("long_script_cases", 1);
     check_case(cfg, rep, &format!("long:{}", i), &chain, &inj);
+  }
+
+  // (iii-c) large parameters over long inputs (counts in the thousands, 3000 items)
+  {
+    let big: Vec<Op> = vec![
+      Op::Take(2000), Op::Take(1025), Op::Skip(2000), Op::Skip(1025), Op::TakeLast(2000), Op::TakeLast(1025),
+      Op::SkipLast(2000), Op::SkipLast(1025), Op::SkipLast(1024), Op::SkipLast(5000), Op::ElementAt(2500),
+      Op::BufferWithCount(1500), Op::BufferWithCount(1025),
+    ];
+    for (k, op) in big.iter().enumerate() {
+      for n in [1024usize, 1025, 3000] {
+        let idx = k * 10 + n % 7;
+        if !cfg.mine(idx) {
+          continue;
+        }
+        let chain = Chain::new(Src::Iter((0..n as i64).map(V::I).collect()), vec![op.clone()]);
+        rep.count("large_parameter_cases", 1);
+        check_case(cfg, rep, &format!("big:{}:{}", k, n), &chain, &[]);
+      }
+    }
   }
 
   // (iv) static battery: the same chains written as ordinary typed (un-boxed) pipelines,
